@@ -185,6 +185,39 @@ Theorem C13_reachable_predictions (have : bool) (cs : list cmd) (k : kind) (prev
 Proof. exact (reachable_predict B pstep same_shape gpf_sliced have cs k prev old). Qed.
 End Steps.
 
+(* ---- the measurement path ----
+   freeze_measurements is not gated by the skip flag: every call advances the measurement source,
+   also while the correction is skipped *)
+Theorem C13_freeze_not_gated (st : mstate) :
+  ms_cursor (next OpFreeze st) = S (ms_cursor st) /\ ms_flags (next OpFreeze st) = ms_flags st.
+Proof. exact (freeze_not_gated st). Qed.
+
+(* after ANY word of operations (skip commands, freeze, predict, correct) the cursor of the measurement
+   source is the number of freeze calls, and the flags are those after the skip commands alone *)
+Theorem C13_measurement_cursor (ops : list op) (st : mstate) :
+  ms_cursor (final_m ops st) = ms_cursor st + freezes_of ops /\
+  ms_flags (final_m ops st) = final (skips_of ops) (ms_flags st).
+Proof. exact (conj (final_m_cursor ops st) (final_m_flags ops st)). Qed.
+
+(* reversibility extended to the measurement state: once everything is switched off again the whole
+   machine state (flags AND measurement cursor) equals that of a never-skipped twin that received the
+   same freeze / predict / correct calls *)
+Theorem C13_reversible_with_measurements (have : bool) (ops : list op) :
+  all_off (final (skips_of ops) (init have)) ->
+  final_m ops (m_init have) = final_m (calls_of ops) (m_init have).
+Proof. exact (reversible_m have ops). Qed.
+
+(* per step: with the correction switched off again, correct() uses the measurement frozen by the LAST
+   freeze call (those issued during the skip included) -- exactly what the twin computes *)
+Theorem C13_correction_restored_with_measurements (B : Type) (cstepm : kind -> nat -> B -> B -> B)
+  (have : bool) (ops : list op) (k : kind) :
+  last_status corr_names false (skips_of ops) = false ->
+  forall pred old,
+    correct_m B cstepm k (final_m ops (m_init have)) pred old = cstepm k (freezes_of ops) pred old /\
+    correct_m B cstepm k (final_m ops (m_init have)) pred old =
+    correct_m B cstepm k (final_m (calls_of ops) (m_init have)) pred old.
+Proof. exact (correct_m_restored B cstepm have ops k). Qed.
+
 (* the propagate modes of this model are the branches of C02's model of
    LinearStateModel::propagate (for every arithmetic instance): MFull is F x + u, MStateOnly is F x, ... *)
 Theorem C13_modes_are_linear_propagate (O : MatOps) (n k : nat) (F : M O n n) (exo : option (M O n k -> M O n k))
@@ -201,10 +234,17 @@ Proof. reflexivity. Qed.
 Example C13_word_with_exo :
   let f := final [(NState, true); (NCorrection, true)] (init true) in
   f_pred f = false /\ f_state f = true /\ f_exo f = Some false /\ f_corr f = true /\
-  obs_predict KF f true = OInput /\ obs_predict Boot f false = ORan Boot MExoOnly /\ obs_correct UKF f true = OInput /\
+  obs_predict KF f true = OInput /\ obs_predict Boot f false = ORan Boot MExoOnly /\ obs_correct UKF (mkM f 3) true = OInput /\
   obs_predict GPF f false = OInput /\ obs_predict GPF f true = OSliced /\
   all_off (final [(NState, true); (NCorrection, true); (NPrediction, false); (NCorrection, false)] (init true)).
 Proof. repeat split. Qed.
+
+(* skip on; freeze; skip off; correct: the correction uses the measurement frozen DURING the skip *)
+Example C13_freeze_during_skip :
+  run_ops KF [OpFreeze; OpSkip NCorrection true; OpFreeze; OpCorrect false; OpSkip NCorrection false; OpCorrect false] (m_init false)
+  = [ObsFreeze 1; ObsSkip (Ok true) (mkFlags false false false None true); ObsFreeze 2; ObsStep OInput;
+     ObsSkip (Ok true) (init false); ObsStep (OCorrected KF 2)].
+Proof. reflexivity. Qed.
 
 (* 'prediction on; state off' with an exogenous model leaves the exogenous part
    skipped: is_skipping() is false, the step is the state model alone *)
@@ -241,3 +281,7 @@ Print Assumptions C13_both_off_restores_fresh_state.
 Print Assumptions C13_reversible_all_off.
 Print Assumptions C13_reachable_predictions.
 Print Assumptions C13_modes_are_linear_propagate.
+Print Assumptions C13_freeze_not_gated.
+Print Assumptions C13_measurement_cursor.
+Print Assumptions C13_reversible_with_measurements.
+Print Assumptions C13_correction_restored_with_measurements.
